@@ -1,4 +1,4 @@
-//@serves C04 C05 C09 C10 C11 C14 C15 C01 C06 C07
+//@serves C04 C05 C09 C10 C11 C14 C15 C01 C06 C07 C02 C03 C12 C13 C16
 //@tier A
 //@no-global G2
 //@include prelude/head.rs
@@ -39,6 +39,10 @@ impl<Fd: AsFd + Sized> HotfixRustixFd for Fd {
 pub mod ledger {
     use super::*;
 //@prove syscalls.openat2__ledger
+}
+pub mod errno_order {
+    use super::*;
+//@prove syscalls.openat2__errno
 }
 //@prove syscalls.fsopen
 //@prove syscalls.fsconfig_set_string
